@@ -119,6 +119,24 @@ Theorem C33_zip_pages_refuted :
 Proof. exact zip_refuted. Qed.
 Print Assumptions C33_zip_pages_refuted.
 
+(* 8. object renumbering of a merged source (patchSourceObjectNumbers / lookupTable / appendSourceObjects-
+      ToDest): whatever order the map iteration produces, every source object gets a fresh number in
+      [dest Size, dest Size + #source objects), no two the same -- so, as all destination numbers are below
+      its Size (also when its numbering has holes), no destination object is overwritten, and the
+      invariant holds again for the next source. *)
+Theorem C33_renumber_fresh : forall keys dsize,
+  Forall (fun n => dsize <= n < dsize + lenZ keys) (new_numbers keys dsize) /\
+  NoDup (new_numbers keys dsize) /\ length (new_numbers keys dsize) = length keys.
+Proof. exact renumber_fresh. Qed.
+Print Assumptions C33_renumber_fresh.
+
+Theorem merge_preserves_dest_objects : forall (O : Type) (dest : Z -> option O) (src : list (Z * O)) dsize,
+  0 <= dsize -> (forall n, dest n <> None -> 0 <= n < dsize) ->
+  (forall n, dest n <> None -> merged_table dest src dsize n = dest n) /\
+  (forall n, merged_table dest src dsize n <> None -> 0 <= n < merged_size src dsize).
+Proof. exact @merge_dest_objects. Qed.
+Print Assumptions merge_preserves_dest_objects.
+
 (* non-vacuity: hypotheses are satisfiable and the functions really compute on a nested document *)
 Definition ex_doc : tree :=
   Node (mkAttrs (Some 90) (Some mb1) None false) 3
